@@ -472,7 +472,9 @@ pub fn run(o: &Opts) -> Report {
             let r = explore(prog, &scratch, &mut n, cap, &mut rng, |out| {
                 rep.evaluations += 1;
                 let key = (out.results.clone(), out.snap.clone());
-                if distinct.insert(key.clone()) && first_outcomes.len() < 6 {
+                // every explored schedule is replayed on the Lean interleaving model (fifth session; before: six per program)
+                let fresh = distinct.insert(key.clone());
+                if fresh || first_outcomes.len() < 4000 {
                     first_outcomes.push((out.schedule.clone(), out.results.clone(), out.snap.clone(), out.traces.clone()));
                 }
                 if bad.is_none() {
